@@ -267,6 +267,18 @@ pub fn run(ctx: &Ctx, rep: &mut Report) {
     }
     rep.count("terminal_sampler_tries", tries);
     rep.count("terminal_sampler_kept", got);
+    // en passant as the answer to a check, often the only legal move
+    for p in gen::ep_check_family(&mut rng, ctx.n(40_000, 1_000_000) as usize).iter() {
+        check_position(p, &ev, &[0, 3, 10], rep);
+        rep.count("ep_answers_check_positions", 1);
+        let legal = p.legal_moves();
+        if legal.len() == 1 && legal[0].ep {
+            rep.count("en_passant_is_the_only_legal_move", 1);
+        }
+    }
+    for p in gen::ep_family(&mut rng, ctx.n(40_000, 1_000_000) as usize).iter() {
+        check_position(p, &ev, &[0, 10], rep);
+    }
     // corpus, play, sample
     for (i, p) in gen::corpus().iter().enumerate() {
         if ctx.mine(i as u64) {
